@@ -35,6 +35,28 @@ Proof.
   simpl in Hok. rewrite (render_stable c c' Hcl Hx fuel child Hok). reflexivity.
 Qed.
 
+(* the group ids read off a clause are stable as well *)
+Lemma cl_groups_stable : forall c c', closed c -> extA c c' ->
+  forall i, fr c i -> cl_groups c' i = cl_groups c i.
+Proof.
+  intros c c' Hcl Hx i Hi. unfold cl_groups. rewrite (Hx i Hi).
+  pose proof (Hcl i (proj1 Hi)) as Hok. destruct (get_node c i) eqn:E; try reflexivity.
+  destruct group as [g|]; [|reflexivity]. simpl in Hok. rewrite (Hx child Hok).
+  pose proof (Hcl child (proj1 Hok)) as Hok2. destruct (get_node c child) eqn:E2; try reflexivity.
+  simpl in Hok2. destruct Hok2 as [_ Hb]. rewrite (Hx b Hb).
+  pose proof (Hcl b (proj1 Hb)) as Hok3. destruct (get_node c b) eqn:E3; try reflexivity.
+  simpl in Hok3. rewrite (Hx dn Hok3). reflexivity.
+Qed.
+
+(* group ids of the definition list of s, clause by clause (None: not an alternative of an AD) *)
+Definition grp (c : chain) (s : sig) : list (option (nat * nat * nat)) := map (cl_groups c) (defs c s).
+
+Lemma abs_g_combine : forall fuel c s, abs_g fuel c s = combine (abs fuel c s) (grp c s).
+Proof.
+  intros fuel c s. unfold abs_g, abs, grp, defs. destruct (get_head c s); [|reflexivity].
+  induction (define_children (get_node c n)) as [|x xs IH]; [reflexivity|]. simpl. rewrite IH. reflexivity.
+Qed.
+
 Lemma abs_defs : forall fuel c s, abs fuel c s = map (render_clause fuel c) (defs c s).
 Proof. intros. unfold abs, defs. destruct (get_head c s); reflexivity. Qed.
 
@@ -50,6 +72,14 @@ Lemma abs_old_stable : forall fuel p l c' s, Inv p l -> extA (l :: p) c' ->
 Proof.
   intros fuel p l c' s I Hx. rewrite abs_defs. apply map_ext_in. intros a Ha.
   apply render_clause_stable; [apply I|exact Hx|].
+  pose proof (defs_fr p l s I) as HF. rewrite Forall_forall in HF. apply HF. exact Ha.
+Qed.
+
+Lemma grp_old_stable : forall p l c' s, Inv p l -> extA (l :: p) c' ->
+  map (cl_groups c') (defs (l :: p) s) = grp (l :: p) s.
+Proof.
+  intros p l c' s I Hx. unfold grp. apply map_ext_in. intros a Ha.
+  apply cl_groups_stable; [apply I|exact Hx|].
   pose proof (defs_fr p l s I) as HF. rewrite Forall_forall in HF. apply HF. exact Ha.
 Qed.
 
@@ -96,13 +126,13 @@ Definition cb_post (p : chain) (l : layer) (b : body) (l' : layer) (i : nat) : P
   size (l :: p) <= size (l' :: p).
 
 Lemma app_post : forall p l n, Inv p l -> ok_node (fst (app_node p l n) :: p) n ->
-  (forall f a ch, n <> NDefine f a ch) -> frozen n = true ->
+  (forall f a ch, n <> NDefine f a ch) -> frozen n = true -> call_ok (l :: p) n ->
   let l' := fst (app_node p l n) in
   Inv p l' /\ (forall N, extN N (l :: p) (l' :: p)) /\ frm (l :: p) (l' :: p) /\
   (forall s, defs (l' :: p) s = defs (l :: p) s) /\ fr (l' :: p) (size (l :: p)) /\
   get_node (l' :: p) (size (l :: p)) = n /\ size (l' :: p) = S (size (l :: p)).
 Proof.
-  intros p l n I Hok Hnd Hfz l'. pose proof (I_rok _ _ I) as rok. splits.
+  intros p l n I Hok Hnd Hfz Hcall l'. pose proof (I_rok _ _ I) as rok. splits.
   - apply Inv_app; assumption.
   - intros N. apply extN_app. exact rok.
   - intros j. apply fr_app_old. exact rok.
@@ -120,8 +150,10 @@ Proof.
   - (* call *)
     pose proof (add_head_spec p l (FU f, length args) false I) as Hah.
     destruct (add_head p l (FU f, length args) false) as [l1 dn].
-    destruct Hah as (I1 & Hext1 & Hfrm1 & Hdefs1 & _); [intros k a E; discriminate|].
-    pose proof (app_post p l1 (NCall (FU f) args dn) I1 Logic.I (fun _ _ _ H => ltac:(discriminate H)) eq_refl) as Hap.
+    destruct Hah as (I1 & Hext1 & Hfrm1 & Hdefs1 & Hhead1 & _); [intros k a E; discriminate|].
+    assert (Hcall1 : call_ok (l1 :: p) (NCall (FU f) args dn)).
+    { exists dn. split; [exact Hhead1|]. apply (I_hres _ _ I1 _ _ Hhead1). }
+    pose proof (app_post p l1 (NCall (FU f) args dn) I1 Logic.I (fun _ _ _ H => ltac:(discriminate H)) eq_refl Hcall1) as Hap.
     simpl in Hap. destruct Hap as (I2 & Hext2 & Hfrm2 & Hdefs2 & Hfr2 & Hg2 & Hsz2).
     open_app. unfold cb_post; splits.
     + exact I2.
@@ -132,7 +164,7 @@ Proof.
     + intros [|fuel]; [reflexivity|]. simpl render. simpl snd. rewrite Hg2. reflexivity.
     + destruct (Hext1 0) as [Hs1 _]. simpl in *. lia.
   - (* builtin *)
-    pose proof (app_post p l (NBuiltin f args id) I Logic.I (fun _ _ _ H => ltac:(discriminate H)) eq_refl) as Hap.
+    pose proof (app_post p l (NBuiltin f args id) I Logic.I (fun _ _ _ H => ltac:(discriminate H)) eq_refl Logic.I) as Hap.
     simpl in Hap. destruct Hap as (I2 & Hext2 & Hfrm2 & Hdefs2 & Hfr2 & Hg2 & Hsz2).
     unfold cb_post; splits; auto.
     + intros [|fuel]; [reflexivity|]. simpl render. rewrite Hg2. reflexivity.
@@ -144,7 +176,7 @@ Proof.
     destruct Hb as (I2 & Hext2 & Hfrm2 & Hdefs2 & Hfr2 & Hr2 & Hsz2).
     assert (Hok : ok_node (fst (app_node p l2 (NConj i1 i2)) :: p) (NConj i1 i2)).
     { simpl. split; apply fr_app_old; try apply I2; auto. }
-    pose proof (app_post p l2 (NConj i1 i2) I2 Hok (fun _ _ _ H => ltac:(discriminate H)) eq_refl) as Hap.
+    pose proof (app_post p l2 (NConj i1 i2) I2 Hok (fun _ _ _ H => ltac:(discriminate H)) eq_refl Logic.I) as Hap.
     simpl in Hap. destruct Hap as (I3 & Hext3 & Hfrm3 & Hdefs3 & Hfr3 & Hg3 & Hsz3).
     open_app. unfold cb_post; splits.
     + exact I3.
@@ -167,7 +199,7 @@ Proof.
     destruct Hb as (I2 & Hext2 & Hfrm2 & Hdefs2 & Hfr2 & Hr2 & Hsz2).
     assert (Hok : ok_node (fst (app_node p l2 (NDisj i1 i2)) :: p) (NDisj i1 i2)).
     { simpl. split; apply fr_app_old; try apply I2; auto. }
-    pose proof (app_post p l2 (NDisj i1 i2) I2 Hok (fun _ _ _ H => ltac:(discriminate H)) eq_refl) as Hap.
+    pose proof (app_post p l2 (NDisj i1 i2) I2 Hok (fun _ _ _ H => ltac:(discriminate H)) eq_refl Logic.I) as Hap.
     simpl in Hap. destruct Hap as (I3 & Hext3 & Hfrm3 & Hdefs3 & Hfr3 & Hg3 & Hsz3).
     open_app. unfold cb_post; splits.
     + exact I3.
@@ -188,7 +220,7 @@ Proof.
     destruct Ha as (I1 & Hext1 & Hfrm1 & Hdefs1 & Hfr1 & Hr1 & Hsz1).
     assert (Hok : ok_node (fst (app_node p l1 (NNeg i1)) :: p) (NNeg i1)).
     { simpl. apply fr_app_old; try apply I1; auto. }
-    pose proof (app_post p l1 (NNeg i1) I1 Hok (fun _ _ _ H => ltac:(discriminate H)) eq_refl) as Hap.
+    pose proof (app_post p l1 (NNeg i1) I1 Hok (fun _ _ _ H => ltac:(discriminate H)) eq_refl Logic.I) as Hap.
     simpl in Hap. destruct Hap as (I3 & Hext3 & Hfrm3 & Hdefs3 & Hfr3 & Hg3 & Hsz3).
     open_app. unfold cb_post; splits.
     + exact I3.
@@ -215,12 +247,13 @@ Definition acn_post (p : chain) (l : layer) (s : sig) (nd : node) (l2 : layer) :
 
 Lemma app_then_define : forall p l s nd,
   Inv p l -> ok_node (fst (app_node p l nd) :: p) nd -> (forall f a ch, nd <> NDefine f a ch) -> frozen nd = true ->
+  call_ok (l :: p) nd ->
   (forall k a, s = (FBody k, a) -> k <= size (l :: p)) ->
   (is_user s \/ get_head (l :: p) s = None) ->
   acn_post p l s nd (add_define p (fst (app_node p l nd)) s (size (l :: p))).
 Proof.
-  intros p l s nd I Hok Hnd Hfz Hfb Hcase.
-  pose proof (app_post p l nd I Hok Hnd Hfz) as Hap. cbv zeta in Hap.
+  intros p l s nd I Hok Hnd Hfz Hcall Hfb Hcase.
+  pose proof (app_post p l nd I Hok Hnd Hfz Hcall) as Hap. cbv zeta in Hap.
   destruct Hap as (I1 & Hext1 & Hfrm1 & Hdefs1 & Hfr1 & Hg1 & Hsz1).
   set (l1 := fst (app_node p l nd)) in *.
   assert (Hfb1 : forall k a, s = (FBody k, a) -> k <= size (l1 :: p)).
@@ -253,9 +286,30 @@ Definition specf (fuel : nat) (st : stmt) (s : sig) : list rclause :=
 
 Definition noad (st : stmt) : Prop := match st with SAD _ _ _ => False | _ => True end.
 
-Definition st_post (p : chain) (l : layer) (l' : layer) (contrib : nat -> sig -> list rclause) : Prop :=
+(* group ids a statement contributes to predicate s when its AD group id is g *)
+Fixpoint specg_heads (heads : list (N * list term * N)) (g : nat) (s : sig) : list (option (nat * nat * nat)) :=
+  match heads with
+  | [] => []
+  | (f, a, _) :: t => (if sig_eqb s (FU f, length a) then [Some (g, g, g)] else []) ++ specg_heads t g s
+  end.
+
+Definition specG (g : nat) (st : stmt) (s : sig) : list (option (nat * nat * nat)) :=
+  match st with
+  | SFact f a _ => if sig_eqb s (FU f, length a) then [None] else []
+  | SClause f a _ _ => if sig_eqb s (FU f, length a) then [None] else []
+  | SAD heads _ _ => specg_heads heads g s
+  | SDeclare _ _ => []
+  end.
+
+(* the group id _compile gives to an AD added to layer l on top of p *)
+Definition gsel (gm : gmode) (p : chain) (l : layer) : nat :=
+  match gm with GLocal => length (l_nodes l) | GGlobal => size p + length (l_nodes l) end.
+
+Definition st_post (p : chain) (l : layer) (l' : layer) (contrib : nat -> sig -> list rclause)
+           (gcontrib : sig -> list (option (nat * nat * nat))) : Prop :=
   Inv p l' /\ extA (l :: p) (l' :: p) /\
-  forall fuel s, is_user s -> abs fuel (l' :: p) s = abs fuel (l :: p) s ++ contrib fuel s.
+  (forall fuel s, is_user s -> abs fuel (l' :: p) s = abs fuel (l :: p) s ++ contrib fuel s) /\
+  (forall s, is_user s -> grp (l' :: p) s = grp (l :: p) s ++ gcontrib s).
 
 Lemma sig_eqb_sym : forall a b, sig_eqb a b = sig_eqb b a.
 Proof.
@@ -279,21 +333,39 @@ Proof.
     rewrite (abs_old_stable fuel p l (l2 :: p) s I Hx). rewrite app_nil_r. reflexivity.
 Qed.
 
+Lemma grp_after_define : forall p l l2 s0 c g,
+  Inv p l -> extA (l :: p) (l2 :: p) ->
+  defs (l2 :: p) s0 = defs (l :: p) s0 ++ [c] ->
+  (forall s', s' <> s0 -> defs (l2 :: p) s' = defs (l :: p) s') ->
+  cl_groups (l2 :: p) c = g ->
+  forall s, grp (l2 :: p) s = grp (l :: p) s ++ (if sig_eqb s s0 then [g] else []).
+Proof.
+  intros p l l2 s0 c g I Hx Hd Hdo Hg s. unfold grp at 1.
+  destruct (sig_eqb s s0) eqn:E.
+  - apply sig_eqb_eq in E. subst s. rewrite Hd, map_app. simpl. rewrite Hg.
+    rewrite (grp_old_stable p l (l2 :: p) s0 I Hx). reflexivity.
+  - rewrite Hdo by (intros ->; rewrite sig_eqb_refl in E; discriminate).
+    rewrite (grp_old_stable p l (l2 :: p) s I Hx). rewrite app_nil_r. reflexivity.
+Qed.
+
 Lemma add_stmt_noad_spec : forall gm p l st, Inv p l -> noad st ->
-  st_post p l (add_stmt gm p l st) (fun fuel s => specf fuel st s).
+  st_post p l (add_stmt gm p l st) (fun fuel s => specf fuel st s) (fun s => specG (gsel gm p l) st s).
 Proof.
   intros gm p l st I Hna. destruct st as [f a pr|f a b vc|heads b vc|f ar]; simpl in Hna; [| | contradiction|].
   - (* fact *)
     simpl add_stmt.
     change (app_node p l (NFact (FU f) a pr)) with (fst (app_node p l (NFact (FU f) a pr)), size (l :: p)). cbv beta iota.
     pose proof (app_then_define p l (FU f, length a) (NFact (FU f) a pr) I Logic.I
-                  (fun _ _ _ H => ltac:(discriminate H)) eq_refl
+                  (fun _ _ _ H => ltac:(discriminate H)) eq_refl Logic.I
                   (fun k a0 H => ltac:(discriminate H)) (or_introl (ex_intro _ f eq_refl))) as H.
     destruct H as (I2 & Hx & Hfrm & Hd & Hdo & Hg & Hfr & Hsz & _).
-    unfold st_post; splits; [exact I2|exact Hx|].
-    intros fuel s _. simpl specf.
-    apply (abs_after_define fuel p l _ (FU f, length a) (size (l :: p)) (RFact a pr) I Hx Hd Hdo).
-    unfold render_clause. rewrite Hg. reflexivity.
+    unfold st_post; splits; [exact I2|exact Hx| |].
+    + intros fuel s _. simpl specf.
+      apply (abs_after_define fuel p l _ (FU f, length a) (size (l :: p)) (RFact a pr) I Hx Hd Hdo).
+      unfold render_clause. rewrite Hg. reflexivity.
+    + intros s _. simpl specG.
+      apply (grp_after_define p l _ (FU f, length a) (size (l :: p)) None I Hx Hd Hdo).
+      unfold cl_groups. rewrite Hg. reflexivity.
   - (* clause *)
     simpl add_stmt. pose proof (compile_body_spec b p l I) as Hcb.
     destruct (compile_body p l b) as [l1 bn].
@@ -304,27 +376,33 @@ Proof.
     assert (Hok : ok_node (fst (app_node p l1 (NClause (FU f) a None bn vc None)) :: p) (NClause (FU f) a None bn vc None)).
     { simpl. apply fr_app_old; [apply I1|exact Hfr1]. }
     pose proof (app_then_define p l1 (FU f, length a) (NClause (FU f) a None bn vc None) I1 Hok
-                  (fun _ _ _ H => ltac:(discriminate H)) eq_refl
+                  (fun _ _ _ H => ltac:(discriminate H)) eq_refl Logic.I
                   (fun k a0 H => ltac:(discriminate H)) (or_introl (ex_intro _ f eq_refl))) as H.
     destruct H as (I2 & Hx & Hfrm & Hd & Hdo & Hg & Hfr & Hsz & _).
     assert (Hx01 : extA (l :: p) (l1 :: p)) by (apply extN_extA; apply Hext1).
     assert (Hx02 : extA (l :: p) (add_define p (fst (app_node p l1 (NClause (FU f) a None bn vc None))) (FU f, length a) (size (l1 :: p)) :: p)).
     { intros j Hj. rewrite Hx; [apply Hx01; exact Hj|apply Hfrm1; exact Hj]. }
-    unfold st_post; splits; [exact I2|exact Hx02|].
-    intros fuel s _. simpl specf.
-    rewrite (abs_after_define fuel p l1 _ (FU f, length a) (size (l1 :: p))
-               (RClause a None (rspec fuel b) vc false) I1 Hx Hd Hdo).
-    + f_equal. rewrite !abs_defs. rewrite Hdefs1. symmetry.
-      rewrite <- abs_defs. symmetry. rewrite <- (abs_old_stable fuel p l (l1 :: p) s I Hx01). reflexivity.
-    + unfold render_clause. rewrite Hg. f_equal. rewrite <- Hr1.
-      apply render_stable; [apply I1|exact Hx|exact Hfr1].
+    unfold st_post; splits; [exact I2|exact Hx02| |].
+    + intros fuel s _. simpl specf.
+      rewrite (abs_after_define fuel p l1 _ (FU f, length a) (size (l1 :: p))
+                 (RClause a None (rspec fuel b) vc false) I1 Hx Hd Hdo).
+      * f_equal. rewrite !abs_defs. rewrite Hdefs1. symmetry.
+        rewrite <- abs_defs. symmetry. rewrite <- (abs_old_stable fuel p l (l1 :: p) s I Hx01). reflexivity.
+      * unfold render_clause. rewrite Hg. f_equal. rewrite <- Hr1.
+        apply render_stable; [apply I1|exact Hx|exact Hfr1].
+    + intros s _. simpl specG.
+      rewrite (grp_after_define p l1 _ (FU f, length a) (size (l1 :: p)) None I1 Hx Hd Hdo).
+      * f_equal. unfold grp at 1. rewrite Hdefs1. apply (grp_old_stable p l (l1 :: p) s I Hx01).
+      * unfold cl_groups. rewrite Hg. reflexivity.
   - (* declaration *)
     simpl add_stmt.
     pose proof (add_head_spec p l (FU f, ar) false I (fun k a0 H => ltac:(discriminate H))) as Hah.
     destruct (add_head p l (FU f, ar) false) as [l1 dn]. simpl fst.
     destruct Hah as (I1 & Hext1 & Hfrm1 & Hdefs1 & _).
     assert (Hx01 : extA (l :: p) (l1 :: p)) by (apply extN_extA; apply Hext1).
-    unfold st_post; splits; [exact I1|exact Hx01|].
-    intros fuel s _. simpl. rewrite app_nil_r. rewrite (abs_defs fuel (l1 :: p)), Hdefs1.
-    apply (abs_old_stable fuel p l (l1 :: p) s I Hx01).
+    unfold st_post; splits; [exact I1|exact Hx01| |].
+    + intros fuel s _. simpl. rewrite app_nil_r. rewrite (abs_defs fuel (l1 :: p)), Hdefs1.
+      apply (abs_old_stable fuel p l (l1 :: p) s I Hx01).
+    + intros s _. simpl. rewrite app_nil_r. unfold grp at 1. rewrite Hdefs1.
+      apply (grp_old_stable p l (l1 :: p) s I Hx01).
 Qed.
